@@ -29,7 +29,11 @@ double sqrt(double);
 
 /* Math::abs<T>(x) = (x < T(0) ? -x : x); std::abs for floating types */
 #ifdef FEAT_FP
+#ifdef FEAT_C_NATIVE
 #define FEAT_abs(x) fabs(x)
+#else
+#define FEAT_abs(x) __CPROVER_fabs(x)
+#endif
 #define FEAT_isfinite(x) __CPROVER_isfinited(x)
 #define FEAT_isnan(x) __CPROVER_isnand(x)
 #define FEAT_sqrt(x) sqrt(x)
